@@ -530,7 +530,7 @@ class VerifyAttrs(object):
         self.parse_attrs(node, arg)
 
         # Flag node if any argument is assumed-rank.
-        if arg.metaattrs["assumed-rank"]:
+        if arg.metaattrs["assumed-rank"] and node is not None:
             node._gen_fortran_generic = True
 
         if arg.is_function_pointer():
